@@ -28,7 +28,7 @@ RULE = ('seeded non-DAQmx source worlds (stub-made: fragmented over 1-6 segments
         'raw_timestamps=True and compared: groups, channels, properties, lengths, bit-identical raw values, dtype '
         'when len >= 1, scaled data; destination parsed by the strict parser; descriptor accounting. distinct = '
         '(source shape, src kind, dst kind, index); non-trivial = a channel with >= 1 value was copied')
-EXPECTED_PROBES = ['truncated-source', 'channel-over-1MiB', 'typeless-channel', 'empty-string-or-timestamp-channel', 'string-channel', 'timestamp-channel',
+EXPECTED_PROBES = ['in-place', 'truncated-source', 'channel-over-1MiB', 'typeless-channel', 'empty-string-or-timestamp-channel', 'string-channel', 'timestamp-channel',
                    'scaled-channel', 'many-segments', 'dst-index', 'writer-made-source']
 
 
@@ -55,7 +55,9 @@ def generate(rng, tier):
             'dst_kind': rng.choice(['simpath', 'simstream', 'realpath']), 'index': rng.random() < 0.4,
             'version': rng.choice([4712, 4713]),
             # the source is a file a crashed producer left behind: cut at this fraction of its length (None: complete)
-            'cut': rng.random() if rng.random() < 0.15 else None}
+            'cut': rng.random() if rng.random() < 0.15 else None,
+            # defragmenting in place: the destination path is the source path
+            'inplace': rng.random() < 0.04}
 
 
 def content(tf):
@@ -128,7 +130,13 @@ def execute(case):
             res.probe('scaled-channel')
         # ---- run defragment
         source = st.source(case['src_kind'], 'src.tdms')
-        if case['dst_kind'] == 'simpath':
+        inplace = bool(case.get('inplace'))
+        if inplace:
+            source = st.source('simpath', 'src.tdms')
+            dest = source
+            index = case['index']
+            res.probe('in-place')
+        elif case['dst_kind'] == 'simpath':
             from ..simfs import SIM_ROOT
             dest = SIM_ROOT + 'dst.tdms'
             index = case['index']
@@ -157,10 +165,13 @@ def execute(case):
         fc = st.fs.foreign_closed()
         if fc:
             res.violations.append(V('C10.caller-stream-closed', 'defragment closed caller streams: %r' % fc))
-        if case['dst_kind'] == 'realpath':
+        if case['dst_kind'] == 'realpath' and not inplace:
             with open(dest, 'rb') as f:
                 out = f.read()
             iout = open(dest + '_index', 'rb').read() if case['index'] else None
+        elif inplace:
+            out = st.fs.get('src.tdms')
+            iout = st.fs.get('src.tdms_index') if case['index'] else None
         else:
             out = st.fs.get('dst.tdms')
             iout = st.fs.get('dst.tdms_index') if case['index'] else None
@@ -217,7 +228,7 @@ def execute(case):
 
 def shrink_candidates(case):
     from ..shrink import spec_candidates
-    for k, v in (('src_kind', 'bytesio'), ('dst_kind', 'simpath'), ('index', False), ('version', 4712), ('cut', None)):
+    for k, v in (('src_kind', 'bytesio'), ('dst_kind', 'simpath'), ('index', False), ('version', 4712), ('cut', None), ('inplace', False)):
         if case.get(k) != v:
             c = dict(case)
             c[k] = v
